@@ -11,6 +11,15 @@ def parallel(*thunks):
         return [f.result() for f in futs]
 
 
+def witnesses(groups, wd, timeout=900):
+    """groups: [(spec, base_cfg, [names])]; every witness is its own TLC run, all run concurrently."""
+    if SELFTEST:
+        return []
+    jobs = [(spec, cfg, n) for spec, cfg, names in groups for n in names]
+    out = parallel(*[(lambda j=j: vlib.witnesses(j[0], j[1], [j[2]], wd, workers=1, timeout=timeout)) for j in jobs])
+    return [w for ws in out for w in ws]
+
+
 def legend(trace_file):
     p = trace_file + ".legend.json"
     if not os.path.exists(p):
@@ -36,7 +45,7 @@ def detok(obj, leg):
     return obj
 
 
-def validate_trace(pid, wd, trace_files, timeout=1800):
+def validate_trace(pid, wd, trace_files, timeout=1800, allow_empty=False):
     """Validate the concatenation of the harness's trace files with TLC against DataPlaneTrace.tla.
     Returns dict(lines, segments, diffs=[{sig, what, replay}], tlc). Raises Inconclusive if TLC cannot consume the trace."""
     lines = []
@@ -47,6 +56,8 @@ def validate_trace(pid, wd, trace_files, timeout=1800):
         for l in vlib.read_ndjson(tf):
             lines.append((l, leg))
     if not lines:
+        if allow_empty:   # the harness stopped early because violations were already certain
+            return None
         raise vlib.Inconclusive("no trace lines were recorded")
     tmp = os.path.join(wd, "trace.ndjson")
     vlib.write_ndjson(tmp, [l for l, _ in lines])
@@ -78,8 +89,30 @@ def validate_trace(pid, wd, trace_files, timeout=1800):
             "sample": [detok(l, leg) for l, leg in lines[1:6]]}
 
 
+SELFTEST = bool(os.environ.get("VERIF_DP_SELFTEST"))   # mutation self-test: conformance part only (see checks/dp_selftest.py)
+
+
+def build_vdp():
+    """vlib.build_harness("vdp"), or - for the mutation self-test - a build of a copy of the harness module whose go.mod points at a mutated copy of /repo."""
+    hdir = os.environ.get("VERIF_HARNESS_DIR")
+    if not hdir:
+        return vlib.build_harness("vdp")
+    out = os.path.join(os.path.dirname(hdir.rstrip("/")), "bin", "vdp")
+    os.makedirs(os.path.dirname(out), exist_ok=True)
+    p = vlib.run(["go", "build", "-tags", "verif", "-o", out, "./cmd/vdp"], cwd=hdir, env=vlib.go_env(), timeout=1500, check=False)
+    if p.returncode != 0:
+        raise vlib.Inconclusive("harness build failed:\n" + p.stdout[-4000:])
+    return out
+
+
+def design_runs(cfgs, wd, workers=6, timeout=3000):
+    if SELFTEST:
+        return []
+    return [("DataPlane.tla", c, vlib.tlc_must_pass("DataPlaneMC", c, wd, workers=workers, timeout=timeout)) for c in cfgs]
+
+
 def run_vdp(pid, wd, args, timeout=3000):
-    vdp = vlib.build_harness("vdp")
+    vdp = build_vdp()
     res = vlib.harness_json(vdp, args, wd, timeout=timeout, name=pid.lower() + "_vdp")
     return res
 
